@@ -97,6 +97,22 @@ fn main() {
                 }
             }
         }
+        "pythreadgen" => {
+            let out = opts.extra.get("out").cloned().unwrap_or_else(|| "/verif/work/pyt".to_string());
+            let seam = opts.extra.get("seam").cloned().unwrap_or_else(|| "/verif/target/seam/debug".to_string());
+            let only = opts.extra.get("only").and_then(|s| s.parse::<usize>().ok());
+            let runs = only.map(|o| o + 1).unwrap_or(opts.runs as usize);
+            match pygen::generate_threads(opts.seed, runs, std::path::Path::new(&out), &seam, only) {
+                Ok(n) => {
+                    println!("pythreadgen: {} cases -> {}", n, out);
+                    0
+                }
+                Err(e) => {
+                    eprintln!("HARNESS-ERROR: pythreadgen: {}", e);
+                    2
+                }
+            }
+        }
         "mirigen" => {
             let out = opts.extra.get("out").cloned().unwrap_or_else(|| "/verif/work/miri".to_string());
             match mirigen::generate(opts.seed, std::path::Path::new(&out)) {
